@@ -42,12 +42,16 @@ DEFECT_VARIANTS = {
     'undef_symbol': ['def string U = @[UNDEFINED]@', 'def list UL = a @[UNDEFINED]@', '$ echo @[UNDEFINED]@',
                      'def path UP = -rel UNDEFINED x'],
     'missing_home_file': ['run -python -existing-file -rel-home missing.py', 'run -rel-home missing-program',
-                          'copy -rel-home missing.txt'],
+                          'copy -rel-home missing.txt',
+                          'copy /nonexistent-dir-of-verif/missing.txt', 'copy -rel HERE_PATH missing.txt',
+                          'run -python -existing-file -rel-act-home missing.py'],
     'bad_integer': ['timeout = 1.5', 'timeout = abc', 'timeout = "1 +"'],
     'bad_regex': ["file r.txt = -contents-of -rel-home exists.txt -transformed-by replace '(' x",
                   "file r.txt = -contents-of -rel-home exists.txt -transformed-by grep '*'",
                   "file r.txt = -contents-of -rel-home exists.txt -transformed-by filter contents matches '[a'"],
-    'wrong_type': ['def text-matcher TM = DEFINED', 'def path WP = -rel DEFINED x', 'def text-transformer WT = DEFINED'],
+    'wrong_type': ['def text-matcher TM = DEFINED', 'def path WP = -rel DEFINED x', 'def text-transformer WT = DEFINED',
+                   # a wrong type reached indirectly, and not through the first reference of the definition
+                   'timeout = @[INDIRECT]@', 'env @[INDIRECT]@ = v'],
 }
 ACT = {
     'command-line': dict(conf='', ok='$ touch {mark}/act', act_syntax="'unterminated",
@@ -69,7 +73,8 @@ def concretize(c, mark):
         lines = ['$ touch %s/%s-%d' % (mark, ph, j) for j in range(1, c['base'] + 1)]
         pre = []
         if ph == 'setup':
-            pre = ['def string DEFINED = v', 'def path HOME_PATH = -rel-home sub']
+            pre = ['def string DEFINED = v', 'def path HOME_PATH = -rel-home sub', 'def path HERE_PATH = -rel-here sub',
+                   'def string INDIRECT = @[DEFINED]@-@[HOME_PATH]@']
             lines.append('file created-%s.txt = x' % ph)
         if ph == c['dphase']:
             vs = DEFECT_VARIANTS.get(c['defect'])
